@@ -128,6 +128,8 @@ func (m *C05) NonTrivial(e *Env) bool {
 
 type C03 struct {
 	nCompleted, nRejectedCorrupt, nAccepted int
+	published []uint64 // completed signings whose signature the query service must keep serving
+	nServed   int
 }
 
 func (m *C03) Prop() string { return "C03" }
@@ -154,6 +156,23 @@ func (m *C03) OnBlock(e *Env, blk *world.BlockRecord) {
 		// routines: the attempt can never gather "all assigned members", so no signature will ever be published for it
 		e.Fail("C03", "assigned_committee_unsignable", "", "%s", list[0])
 		return
+	}
+	// "the chain publishes a group signature": what clients read is the signing-result query. It must keep returning the
+	// signature of every completed signing, also after the attempt's interim data has been cleaned up.
+	if n := len(m.published); n > 40 {
+		m.published = m.published[n-40:]
+	}
+	for _, sid := range m.published {
+		cs, err := e.App().TSSKeeper.GetSigning(e.Ctx(), tss.SigningID(sid))
+		if err != nil || len(cs.Signature) < 65 {
+			continue // the per-completion checks below report a missing stored signature
+		}
+		res, err := e.App().TSSKeeper.GetSigningResult(e.Ctx(), tss.SigningID(sid))
+		if err != nil || res == nil || res.EVMSignature == nil || !bytes.Equal(res.EVMSignature.Signature, cs.Signature[33:]) {
+			e.Fail("C03", "published_signature_not_served", "", "signing %d succeeded, but the signing-result query at height %d does not return its signature (err %v)", sid, blk.Height, err)
+			return
+		}
+		m.nServed++
 	}
 	ctx := e.Ctx()
 	tk := e.App().TSSKeeper
@@ -211,6 +230,7 @@ func (m *C03) OnBlock(e *Env, blk *world.BlockRecord) {
 			return
 		}
 		m.nCompleted++
+		m.published = append(m.published, sg.ID)
 		att := sg.Cur()
 		maxID := uint64(0)
 		for _, id := range att.IDs() {
